@@ -153,6 +153,43 @@ access(all) contract Ext {
     access(all) fun mkG2(): @G2 { return <- create G2() }
     init() {}
 }`},
+	{"Multi", `
+access(all) contract Multi {
+    access(all) resource R {
+        access(all) event ResourceDestroyed(uuid: UInt64 = self.uuid, n: Int = self.n)
+        access(all) let n: Int
+        init(_ n: Int) { self.n = n }
+    }
+    access(all) attachment M0 for R { access(all) let k: Int; init() { self.k = 0 } }
+    access(all) attachment M1 for R { access(all) let k: Int; init() { self.k = 1 } }
+    access(all) attachment M2 for R { access(all) let k: Int; init() { self.k = 2 } }
+    access(all) attachment M3 for R { access(all) let k: Int; init() { self.k = 3 } }
+    access(all) attachment M4 for R { access(all) let k: Int; init() { self.k = 4 } }
+    access(all) attachment M5 for R { access(all) let k: Int; init() { self.k = 5 } }
+    access(all) attachment MB for R { access(all) let k: Int; init() { self.k = 99 } }
+    access(all) fun mk(_ n: Int): @R { return <- create R(n) }
+    access(all) fun decorate(_ r: @R): @R {
+        let a <- attach M0() to <- r
+        let b <- attach M1() to <- a
+        let c <- attach M2() to <- b
+        let d <- attach M3() to <- c
+        let e <- attach M4() to <- d
+        return <- attach M5() to <- e
+    }
+    access(all) fun sum(_ r: &R): Int {
+        var t = 0
+        if let a = r[M0] { t = t + 1 + a.k }
+        if let a = r[M1] { t = t + 1 + a.k }
+        if let a = r[M2] { t = t + 1 + a.k }
+        if let a = r[M3] { t = t + 1 + a.k }
+        if let a = r[M4] { t = t + 1 + a.k }
+        if let a = r[M5] { t = t + 1 + a.k }
+        if let a = r[MB] { t = t + 1000 + a.k }
+        return t
+    }
+    access(all) fun strip(_ r: @R): @R { remove M1 from r; remove M4 from r; return <- r }
+    init() {}
+}`},
 	{"Ent", `
 access(all) contract Ent {
     access(all) entitlement Read
@@ -544,6 +581,48 @@ var scenarios = []scenario{
         log(w2[World.A]!.baseId())
         destroy w2
         destroy arr`, id, id)), Expect: []string{`"one"`, `"A.0000000000000009.Far.Tag"`, "1", `"one"`, "true", `"two"`, fmt.Sprint(id)}}}
+	}},
+	{"attachments-across-programs", func(r *Rng) []scnStep {
+		// the transaction's own type table is shifted by a seeded number of unrelated declarations, so that the indices of the
+		// attachment types differ between the transaction and the contract
+		dummies := []string{"let d0: Int8 = 1", "let d1: [Int16] = []", "let d2: {String: Bool} = {}", "let d3: UInt64? = nil", "let d4: [UFix64; 2] = [1.0, 2.0]",
+			"let d5: Address = 0x1", "let d6: Character = \"c\"", "let d7: [String?] = []", "let d8: Word32 = 3", "let d9: {Int: [Int]} = {}"}
+		k := r.Intn(len(dummies) + 1)
+		pre := ""
+		for i := 0; i < k; i++ {
+			pre += "        " + dummies[i] + "\n"
+		}
+		n := r.Intn(100)
+		return []scnStep{
+			{Kind: "tx", Src: scnTx(impW+"import Multi from 0x9\n", fmt.Sprintf(`%s        let r <- Multi.decorate(<- Multi.mk(%d))
+        log(r[Multi.MB] == nil)
+        log(r[Multi.M3]!.k)
+        log(Multi.sum(&r as &Multi.R))
+        remove Multi.MB from r
+        log(Multi.sum(&r as &Multi.R))
+        remove Multi.M2 from r
+        log(Multi.sum(&r as &Multi.R))
+        let r2 <- Multi.strip(<- r)
+        log(Multi.sum(&r2 as &Multi.R))
+        let r3 <- attach Multi.MB() to <- r2
+        log(r3[Multi.MB]!.k)
+        log(r3[Multi.M0]!.k)
+        log(Multi.sum(&r3 as &Multi.R))
+        var cnt = 0
+        r3.forEachAttachment(fun (a: &AnyResourceAttachment) { cnt = cnt + 1 })
+        log(cnt)
+        if let old <- s.storage.load<@Multi.R>(from: /storage/scnMulti) { destroy old }
+        s.storage.save(<- r3, to: /storage/scnMulti)`, pre, n)),
+				Expect: []string{"true", "3", "21", "21", "18", "11", "99", "0", "1110", "4"}},
+			{Kind: "tx", Src: scnTx(impW+"import Multi from 0x9\n", pre+`        let r <- s.storage.load<@Multi.R>(from: /storage/scnMulti)!
+        log(Multi.sum(&r as &Multi.R))
+        log(r[Multi.M1] == nil)
+        log(r[Multi.M5]!.k)
+        let again <- attach Multi.M0() to <- r
+        destroy again`), Fails: "DuplicateAttachmentError"},
+			{Kind: "script", Src: scnScript("import Multi from 0x9\n", "Int", `    let a = getAuthAccount<auth(Storage) &Account>(0x9)
+    return Multi.sum(a.storage.borrow<&Multi.R>(from: /storage/scnMulti)!)`), Expect: []string{}},
+		}
 	}},
 	{"resource-juggling", func(r *Rng) []scnStep {
 		a, b := r.Intn(100), 100+r.Intn(100)
